@@ -29,6 +29,8 @@ pub enum Ty {
     F64,
     VarInt(u32),  // decode_varint::<iN>
     VarUInt(u32), // decode_varuint::<uN>
+    VarIntIn(i64, i64),   // decode_varint::<T> for a user-defined T whose TryFrom<i64> accepts exactly [lo, hi]
+    VarUIntIn(u64, u64),  // decode_varuint::<T> for a user-defined T whose TryFrom<u64> accepts exactly [lo, hi]
     Size,         // decode_size (usize)
     Str,
     Seq(Box<Ty>),
@@ -86,8 +88,8 @@ pub fn encode(ty: &Ty, v: &Val) -> Option<Vec<u8>> {
         (Ty::U64 | Ty::I64, Val::Int(i)) => le_bytes(*i as u128, 8),
         (Ty::F32, Val::Bits32(b)) => le_bytes(*b as u128, 4),
         (Ty::F64, Val::Bits64(b)) => le_bytes(*b as u128, 8),
-        (Ty::VarInt(_), Val::Int(i)) => enc_varint(*i)?,
-        (Ty::VarUInt(_) | Ty::Size, Val::Int(i)) => enc_varuint(*i as u128)?,
+        (Ty::VarInt(_) | Ty::VarIntIn(..), Val::Int(i)) => enc_varint(*i)?,
+        (Ty::VarUInt(_) | Ty::VarUIntIn(..) | Ty::Size, Val::Int(i)) => enc_varuint(*i as u128)?,
         (Ty::Str, Val::Str(s)) => {
             let mut o = enc_varuint(s.len() as u128)?;
             o.extend_from_slice(s.as_bytes());
@@ -218,6 +220,20 @@ impl<'a> R<'a> {
             Ty::VarUInt(w) => {
                 let v = self.varuint()?;
                 if v >= (1u128 << w) {
+                    return Err(Reject::OutOfRange);
+                }
+                Val::Int(v as i128)
+            }
+            Ty::VarIntIn(lo, hi) => {
+                let v = self.varint()?;
+                if v < *lo as i128 || v > *hi as i128 {
+                    return Err(Reject::OutOfRange);
+                }
+                Val::Int(v)
+            }
+            Ty::VarUIntIn(lo, hi) => {
+                let v = self.varuint()?;
+                if v < *lo as u128 || v > *hi as u128 {
                     return Err(Reject::OutOfRange);
                 }
                 Val::Int(v as i128)
